@@ -119,7 +119,7 @@ class Lifted:
 
 
 def lift(ctx, name, cpp, roots, defines=(), ub=False, models=(), sharable=0, prelude=True, extra_clang=(),
-         no_inline=False):
+         no_inline=False, retype=None):
     """clang++ -> LLVM IR -> C.  Returns Lifted(c, h, ll, functions)."""
     ll = ctx.path(name, name + '.ll')
     cmd = ['clang++-14'] + CLANG_FLAGS + include_flags(ctx, sharable) + ['-D' + d for d in defines]
@@ -137,6 +137,8 @@ def lift(ctx, name, cpp, roots, defines=(), ub=False, models=(), sharable=0, pre
         cmd += ['--root', r]
     if ub:
         cmd.append('--ub')
+    for k, v in (retype or {}).items():
+        cmd += ['--retype', '%s=%s' % (k, v)]
     rc, o, e, s2, _ = sh(cmd, timeout=600)
     if rc != 0:
         raise Inconclusive('ll2c failed on %s: %s' % (name, e[-3000:]))
